@@ -3,6 +3,7 @@ import re
 from sa.facts import AnalysisBroken, strip_targs
 from sa import analysis as an
 from sa import rules as K
+from rules import common as C
 
 UNITS = ['thread/thread.cpp']
 FLOOR = 30
@@ -288,6 +289,7 @@ def shutdown_order(R, prog):
 
 
 def run(R, prog, tier):
+    R.guard(C.interrupt_retest_under_lock, R, prog, P)
     R.guard(shutdown_order, R, prog)
     R.guard(sleepq, R, prog)
     R.guard(consumption, R, prog)
